@@ -472,6 +472,42 @@ def world_stage(ck, rng, stats):
         sb.cleanup()
 
 
+def same_name_stage(ck, rng, stats):
+    """messages with the SAME file name in different directories (two maildirs of a block, two blocks, new/ and cur/ of one maildir) and
+    different file times: a file-date condition is decided per message, by that message's own file"""
+    import time
+    now = int(time.time())
+    for layout in ('two-paths', 'two-blocks', 'new-cur'):
+        for first_old in (True, False):
+            sb = mdrun.Sandbox()
+            a = sb.maildir('a'); b = sb.maildir('b'); dst = sb.maildir('dst')
+            t_old, t_new = now - 86400 * 3, now - 5
+            name = '1600000000.77_1.same'
+            places = [(a, 'new'), (b, 'new')] if layout != 'new-cur' else [(a, 'new'), (a, 'cur')]
+            ages = [t_old, t_new] if first_old else [t_new, t_old]
+            for (md, sub), t in zip(places, ages):
+                sb.add(md, sub, b'To: a\nX-Age: %s\n\nSAME-NAME\n' % (b'old' if t == t_old else b'new'), name=name + (':2,S' if sub == 'cur' else ''), mtime=t)
+            rule = '\tmatch date modified > 1 days move "%s"\n' % dst
+            if layout == 'two-paths':
+                conf = 'maildir { "%s" "%s" } {\n%s}\n' % (a, b, rule)
+            elif layout == 'two-blocks':
+                conf = 'maildir "%s" {\n%s}\nmaildir "%s" {\n%s}\n' % (a, rule, b, rule)
+            else:
+                conf = 'maildir "%s" {\n%s}\n' % (a, rule)
+            cp = sb.write_conf(conf.encode())
+            rc, out, err = sb.run([], conf=cp)
+            stats['runs'] += 1; stats['same_name_cases'] = stats.get('same_name_cases', 0) + 1
+            moved = [bb for bb in sb.snapshot(dst).values()]
+            left = [bb for md in (a, b) for bb in sb.snapshot(md).values()]
+            ok = rc == 0 and len(moved) == 1 and b'X-Age: old' in moved[0] and len(left) == 1 and b'X-Age: new' in left[0]
+            if not ok:
+                stats['viol'] += 1
+                ck.violation('two messages with the same file name (%s, the %s one first), rule "date modified > 1 days move": exactly the three-day-old one is selected; '
+                             'moved %r, left %r (exit %d)' % (layout, 'old' if first_old else 'recent', [m[6:20] for m in moved], [m[6:20] for m in left], rc),
+                             {'stage': 'same-name', 'layout': layout, 'first_old': first_old, 'config': conf, 'exit': rc, 'stderr': err[-300:].decode(errors='replace')})
+            sb.cleanup()
+
+
 def macro_stage(ck, rng, stats):
     """macros in rule trees: names that are prefixes / extensions of one another, defined in the file and on the command line (-D wins
     over the file for the SAME name only); used as header name, pattern subject and destination"""
@@ -515,6 +551,7 @@ def run(ck):
     rng = ck.rng
     stats = dict(runs=0, evals=0, dis=0, viol=0, clean=0, T1=0, T2=0, T3=0, nontrivial=set())
     world_stage(ck, rng, stats)
+    same_name_stage(ck, rng, stats)
     macro_stage(ck, rng, stats)
     bystanders(ck, rng, stats)
     formula_stage(ck, rng, stats)
@@ -545,7 +582,7 @@ def run(ck):
         'distinct_nontrivial': len(stats['nontrivial']),
         'rule': 'rule trees: a bounded-exhaustive family (<= 3 rules per block, depth <= 1, 6 conditions x 6 action lists, sub-sampled in the quick tier), a family with pass / break inside blocks nested one and two levels deep (all pairs of rules over 3 conditions x 6 action lists, 2 outer conditions, 3 continuations; every 17th in the quick tier) and random '
                 'trees (depth <= 3, <= 4 rules per block, and/or/!/parentheses/unparenthesised chains, pass/break as last action), each on all 8 truth assignments '
-                'of 3 matchers; plus 12 runs over a maildir holding non-message files (symbolic links to a matching message file / dangling / to a directory, a sub-directory, a FIFO) with file types reported and not reported by readdir; 8 formulas with negated / parenthesised isdirectory and command matchers taking back-references; 5 layouts of blocks naming several maildirs (string prefixes, a maildir nested in another, trailing slashes); 4 runs in which the command of the first message changes what an isdirectory / command condition of the later ones tests; 4 macro layouts (names that are prefixes of one another, in the file and with -D) used as header name and destination; non-trivial = the model or the documented semantics select at least one action; distinct = distinct (tree, assignment)',
+                'of 3 matchers; plus 12 runs over a maildir holding non-message files (symbolic links to a matching message file / dangling / to a directory, a sub-directory, a FIFO) with file types reported and not reported by readdir; 8 formulas with negated / parenthesised isdirectory and command matchers taking back-references; 5 layouts of blocks naming several maildirs (string prefixes, a maildir nested in another, trailing slashes); 4 runs in which the command of the first message changes what an isdirectory / command condition of the later ones tests; 6 runs over two messages with the same file name in different directories and different file times under a file-date condition; 4 macro layouts (names that are prefixes of one another, in the file and with -D) used as header name and destination; non-trivial = the model or the documented semantics select at least one action; distinct = distinct (tree, assignment)',
         'samples': samples,
         'traces_validated_against_impl': stats['evals'],
         'disagreements_checked': stats['dis'],
